@@ -43,6 +43,9 @@ type NewStoreCase struct {
 	ManyCached int `json:"many_cached,omitempty"`
 	// Lookup: StoreConfig.AllowLookup is set (it has no bearing on construction)
 	Lookup bool `json:"lookup,omitempty"`
+	// Conns > 0: the store talks to the service through the real setec.Client over a transport that
+	// keeps at most this many connections (a busy connection is one whose reply has not been consumed)
+	Conns int `json:"conns,omitempty"`
 }
 
 // TaggedInner is embedded in taggedEmb: its tagged field is declared through promotion.
@@ -100,6 +103,7 @@ func genNewStoreCase(rt *rapid.T) NewStoreCase {
 		c.ManyCached = rapid.SampledFrom([]int{0, 0, 5, c.Many / 2}).Draw(rt, "manycached")
 	}
 	c.Lookup = rapid.IntRange(0, 2).Draw(rt, "lookup") == 0
+	c.Conns = rapid.SampledFrom([]int{0, 0, 1, 2, 4}).Draw(rt, "conns")
 	return c
 }
 
@@ -114,12 +118,16 @@ func runC10(t *testing.T, c NewStoreCase) (v *h.Violation, info h.Info) {
 	dir := h.Scratch(t)
 	defer os.RemoveAll(dir)
 	synctest.Test(t, func(t *testing.T) {
-		v = runC10Bubble(dir, c, &info)
+		var again func() *h.Violation
+		v = runC10Bubble(dir, c, &info, &again)
+		if v == nil && again != nil {
+			v = again()
+		}
 	})
 	return v, info
 }
 
-func runC10Bubble(dir string, c NewStoreCase, info *h.Info) *h.Violation {
+func runC10Bubble(dir string, c NewStoreCase, info *h.Info, again *func() *h.Violation) *h.Violation {
 	svc := fake.NewSvc()
 	svc.PlainCtxErrors = c.PlainCtx
 	all := append(append([]string{}, c10Pool...), "s1", "s2", "zz", "b2", "0first")
@@ -246,6 +254,11 @@ func runC10Bubble(dir string, c NewStoreCase, info *h.Info) *h.Violation {
 	switch c.Client {
 	case "svc":
 		cfg.Client = svc
+		if c.Conns > 0 {
+			// through the real setec.Client over a transport with a bounded number of connections
+			cfg.Client = svc.WireConns(c.Conns)
+			info.Class("real-client-over-a-bounded-transport")
+		}
 	case "file":
 		doc := model.CacheDoc{}
 		for _, n := range c.FileHas {
@@ -324,6 +337,38 @@ func runC10Bubble(dir string, c NewStoreCase, info *h.Info) *h.Violation {
 	}
 	if o.st != nil {
 		defer o.st.Close()
+	}
+	if c.Misconfig == "" && c.Client == "svc" && !neverReturned && o.pan == nil {
+		// A program constructs a store from the SAME configuration value a second time (another
+		// attempt after the first one's context ended, a second component sharing the configuration):
+		// the service is healthy now, so this attempt must succeed with a value for every declared
+		// secret - whatever the first attempt did with the configuration it was handed.
+		*again = func() *h.Violation {
+			for _, n := range all {
+				svc.SetScript(n, nil)
+				svc.SetDefault(n, fake.Beh{Kind: "ok"})
+			}
+			var st2 *setec.Store
+			var err2 error
+			if v := h.Safely(func() *h.Violation { st2, err2 = setec.NewStore(context.Background(), cfg); return nil }); v != nil {
+				return h.V("never-a-panic", "a second NewStore with the same configuration value panicked: %s", v.Detail)
+			}
+			if err2 != nil {
+				return h.V("retries-until-success-or-context-end", "a second NewStore with the SAME StoreConfig value (declared names %q; first attempt: err=%v) fails although the service now answers every request: %v", c.Names, o.err, err2)
+			}
+			defer st2.Close()
+			for n := range declared {
+				hd := st2.Secret(n)
+				if hd == nil {
+					return h.V("value-for-every-declared-secret", "second NewStore with the same configuration value: %q has no handle", n)
+				}
+				if got := string(hd.Get()); got != "svc-"+n && got != "cache-"+n {
+					return h.V("value-for-every-declared-secret", "second NewStore with the same configuration value: %q yields %q", n, got)
+				}
+			}
+			info.Class("constructed-again-from-the-same-configuration-value")
+			return nil
+		}
 	}
 	if o.pan != nil {
 		return h.V("never-a-panic", "NewStore panicked: %v", o.pan)
